@@ -43,15 +43,31 @@ Inductive decoded :=
   | DEntry (checks : list chk) (adv : N).
 
 Definition decode (b : N) : decoded :=
-  if from_u8_bound <? b then DInvalid
+  if negb (from_u8_accepts b) then DInvalid
   else if negb (is_discriminant b) then DUndefined
   else match lookup b vtable with
        | Some (cs, adv) => DEntry cs adv
        | None => DUnhandled
        end.
 
+(* the verifier's linear instruction grid *)
+Definition adv_of (w : N) : N := if existsb (N.eqb (w_op w)) skip_opcodes then 3 else 1.
+
+Fixpoint on_grid_from (fuel : nat) (code : list N) (i target : N) : bool :=
+  match fuel with
+  | O => false
+  | S k =>
+      if i =? target then true
+      else if target <? i then false
+      else match nthN code i with
+           | None => false
+           | Some w => on_grid_from k code (i + adv_of w) target
+           end
+  end.
+Definition on_grid (code : list N) (target : N) : bool := on_grid_from (S (length code)) code 0 target.
+
 (* environment of one function's scan *)
-Record venv := { v_nregs : N; v_consts : list cst; v_nup : N; v_len : N; v_nested_nup : list N }.
+Record venv := { v_nregs : N; v_consts : list cst; v_nup : N; v_len : N; v_nested_nup : list N; v_code : list N }.
 
 Definition jump_target (ip : N) (w : N) : Z := (Z.of_N ip + 1 + w_simm w)%Z.
 
@@ -65,7 +81,11 @@ Definition check_ok (e : venv) (ip w : N) (c : chk) : bool :=
   | CConstImm => w_imm w <? len (v_consts e)
   | CUpvalA => w_a w <? v_nup e
   | CUpvalB => w_b w <? v_nup e
-  | CJump => (0 <=? jump_target ip w)%Z && (jump_target ip w <=? Z.of_N (v_len e))%Z
+  | CJump =>
+      (0 <=? jump_target ip w)%Z && (jump_target ip w <=? Z.of_N (v_len e))%Z
+      && (if jump_grid_checked                       (* target is an instruction start or the end of the stream *)
+          then (Z.to_N (jump_target ip w) =? v_len e) || on_grid (v_code e) (Z.to_N (jump_target ip w))
+          else true)
   | CRangeA n => (n =? 0) || (w_a w + n - 1 <? nr)
   | CRangeBC => (w_c w =? 0) || (w_b w + w_c w - 1 <? nr)
   | CCallArgsA => (w_a w <? nr) && ((w_c w =? 0) || (w_a w + w_c w <? nr))
@@ -104,7 +124,7 @@ Definition const_ok (nnested : N) (c : cst) : bool :=
 
 Definition env_of (f : func) : venv :=
   {| v_nregs := f_nregs f; v_consts := f_consts f; v_nup := f_nup f; v_len := len (f_code f);
-     v_nested_nup := map f_nup (f_nested f) |}.
+     v_nested_nup := map f_nup (f_nested f); v_code := f_code f |}.
 
 Definition verify_body (f : func) : vres :=
   if negb (forallb (const_ok (len (f_nested f))) (f_consts f)) then VReject
@@ -128,22 +148,6 @@ Fixpoint verify_at (depth : N) (f : func) {struct f} : vres :=
        end.
 
 Definition verify (f : func) : vres := verify_at 0 f.
-
-(* the verifier's linear instruction grid *)
-Definition adv_of (w : N) : N := if existsb (N.eqb (w_op w)) skip_opcodes then 3 else 1.
-
-Fixpoint on_grid_from (fuel : nat) (code : list N) (i target : N) : bool :=
-  match fuel with
-  | O => false
-  | S k =>
-      if i =? target then true
-      else if target <? i then false
-      else match nthN code i with
-           | None => false
-           | Some w => on_grid_from k code (i + adv_of w) target
-           end
-  end.
-Definition on_grid (code : list N) (target : N) : bool := on_grid_from (S (length code)) code 0 target.
 
 (* observation used by the contract tie: 0 reject, 1 accept, 2 undefined (from_u8 gap reached) *)
 Definition verdict (f : func) : N :=
